@@ -12,6 +12,11 @@ import tempfile
 from vlib import build as B
 from vlib import core
 
+import importlib.util as _ilu
+_spec = _ilu.spec_from_file_location("c18_funnel", os.path.join(os.path.dirname(os.path.abspath(__file__)), "funnel.py"))
+funnel = _ilu.module_from_spec(_spec)
+_spec.loader.exec_module(funnel)
+
 HERE = os.path.dirname(os.path.abspath(__file__))
 LEVEL = "proof"
 
@@ -22,6 +27,14 @@ CALL_SITES = {
     "bin/rdsquashfs/src/restore_fstree.c": ["canonicalize_name", "is_filename_sane"],
     "bin/rdsquashfs/src/fill_files.c": ["canonicalize_name", "is_filename_sane"],
     "lib/fstree/src/fstree.c": ["canonicalize_name"],
+    "bin/gensquashfs/src/sort_by_file.c": ["canonicalize_name"],
+    "bin/gensquashfs/src/filemap_xattr.c": ["canonicalize_name"],
+    "bin/gensquashfs/src/glob.c": ["canonicalize_name"],
+    "bin/tar2sqfs/src/options.c": ["canonicalize_name"],
+    "bin/tar2sqfs/src/process_tarball.c": ["canonicalize_name"],
+    "bin/sqfs2tar/src/options.c": ["canonicalize_name"],
+    "bin/rdsquashfs/src/describe.c": ["canonicalize_name", "is_filename_sane"],
+    "bin/sqfsdiff/src/util.c": ["canonicalize_name"],
 }
 
 
@@ -163,12 +176,57 @@ def tool_funnel(ctx, info):
     return problems
 
 
+def run_funnel_matrix(ctx, info, drv, only=None):
+    """Every entry point that feeds an external string to canonicalize_name, driven at the case splits and
+    compared with canon_spec (extracted from the Coq development; cross-checked with py_spec)."""
+    disagree = []
+
+    def spec_fn(strings):
+        data = ("\n".join(hexs(s.encode()) for s in strings) + "\n").encode()
+        rc, out, err = run_lines(drv, data)
+        table = {}
+        for s, l in zip(strings, out):
+            p = l.split(" ")
+            sp = p[3] if len(p) == 4 else "?"
+            c = None if sp == "N" else (bytes.fromhex(sp[1:]) if sp[1:] != "-" else b"").decode()
+            want = py_spec(s.encode())
+            if sp == "?" or (c is None) != (want is None) or (c is not None and c.encode() != want):
+                disagree.append(s)
+            if len(p) == 4 and (p[2] == "1") != py_sane(s.encode()):
+                disagree.append(s)
+            table[s] = (c, len(p) == 4 and p[2] == "1")
+        return table
+    root = tempfile.mkdtemp(dir=ctx.scratch)
+    problems, stats = funnel.funnel_matrix(root, info, spec_fn, only=only)
+    if disagree:
+        ctx.violation("funnel:spec-disagree", "extracted canon_spec and the Python statement of the spec disagree on %r"
+                      % disagree[:3], dict(cases=[hexs(s.encode()) for s in disagree[:5]]), no_input=True)
+    for sig, what, replay in problems:
+        ctx.violation(sig, what, replay, no_input=bool(replay.get("no_input")))
+    runs = stats.pop("_runs", 0)
+    ctx.coverage["funnel_matrix"] = dict(
+        entry_points=len(stats), tool_runs=runs,
+        strings=sum(st["strings"] for st in stats.values()),
+        dotdot_strings=sum(st["dotdot"] for st in stats.values()),
+        clean_strings_accepted_and_compared=sum(st["clean_effective"] for st in stats.values()),
+        per_entry_point={k: "%d/%d/%d" % (v["strings"], v["dotdot"], v["clean_effective"]) for k, v in stats.items()},
+        rule="per entry point: strings / of which with a '..' component (must be refused) / clean spellings whose "
+             "canonical form the tool accepts (result compared with the run on the canonical form)")
+
+
 def run(ctx):
     info = B.build("asan")
     h = B.compile_harness(info, [os.path.join(HERE, "h_canon.c")], "h_canon")
     drv = core.build_model_driver("C18", "ExtractC18.v", os.path.join(HERE, "driver.ml"))
     ctx.trusted += ["props/C18/h_canon.c, props/C18/driver.ml (hex I/O glue)",
                     "ASan/UBSan verdict on the harness run"]
+
+    if ctx.replay:
+        import json
+        r = json.load(open(ctx.replay))
+        if r.get("kind") == "funnel":
+            run_funnel_matrix(ctx, info, drv, only=r)
+            return
 
     cases, rule = gen_cases(ctx)
     data = ("\n".join(hexs(c) for c in cases) + "\n").encode()
@@ -269,6 +327,7 @@ failure_buffer_differs=failbuf_diff,
                                   dict(file=f, function=fn), no_input=True)
         for sig, what in tool_funnel(ctx, info):
             ctx.violation("funnel:" + sig, what, dict(kind="tool-level probe", probe=sig))
+        run_funnel_matrix(ctx, info, drv)
 
 
 def setup():
